@@ -21,10 +21,11 @@ Record state := {
   c_area : option nat                 (* _cached['area']         : transform version *)
 }.
 
-Definition init (r c : bool) : state :=
-  (* the constructor evaluates idxs_pit (it rejects networks without pits) *)
+Definition init (r c a : bool) : state :=
+  (* the constructor evaluates idxs_pit (it rejects networks without pits); a vector object built with user areas
+     (a = true) keeps them in the area slot whatever the cache setting *)
   {| raster := r; cacheon := c; ver := 0; tver := 0; s_pit := Some 0; s_seq := None; s_nn := None;
-     c_rank := None; c_main := None; c_so := None; c_dist := None; c_area := None |}.
+     c_rank := None; c_main := None; c_so := None; c_dist := None; c_area := if negb r && a then Some 0%nat else None |}.
 
 (* what a returned value reflects *)
 Record tag := { t_net : list nat; t_tr : list nat; t_arg : list nat }.
